@@ -610,6 +610,8 @@ structure FilterConsts where
   liveOnly : List String
   drmUnused : List String
   maxTimeSpan : Nat
+  /-- `MAX_TIME_SHIFT_BUFFER_DEPTH` (fix bba0bb1) -/
+  maxDepth : Nat
   maxEventCount : Nat
   eventTypes : List String
 deriving Repr
@@ -765,7 +767,11 @@ def restOk (K : FilterConsts) (tbl : List OptionRow) (o : Nat → Val DT) : Bool
    | .list l => l.all (eventOk K tbl o)
    | _ => true) &&
   ["clockDrift", "leeway", "minimumUpdatePeriod", "timeShiftBufferDepth"].all
-    (fun n => spanOk K (getField tbl o n))
+    (fun n => spanOk K (getField tbl o n)) &&
+  -- a SegmentTimeline lists every segment of the time shift buffer (fix bba0bb1)
+  (match getField tbl o "timeShiftBufferDepth" with
+   | .int z => decide (z ≤ (K.maxDepth : Int))
+   | _ => true)
 
 /-- `RequestHandlerBase.check_option_values` (base.py:124-190): a ValueError (→ 400) for values
 the parser accepts but no response can be produced from; the only change it makes is to
